@@ -57,7 +57,7 @@ def replay_t_{name}_{tag}(h0, h1, txt):
                 pins = [f's[{kl}] == "="']
                 if q1:
                     pins += [f"s[{kl + 1}] == {q1!r}", f"s[{n - 1}] == {q2!r}"]
-                kpre = " and ".join(f's[{i}] in "ab-"' if i else 's[0] in "ab"' for i in range(kl))
+                kpre = " and ".join(f's[{i}] in "abA-"' if i else 's[0] in "abA"' for i in range(kl))  # names are case-preserving
                 vs = kl + 1 + len(q1)
                 valpha = '"ab1-_./:"' if sn == "bare" else '"ab1-_./: "'
                 vpre = " and ".join(f"s[{vs + i}] in {valpha}" for i in range(vl)) or "True"
@@ -83,7 +83,7 @@ def replay_attr_{sn}_{kl}_{vl}(s):
             pins = [f's[{kl}] == "="'] + ([f"s[{kl + 1}] == {q1!r}", f"s[{n - 1}] == {q2!r}"] if q1 else [])
             vs = kl + 1 + len(q1)
             valpha = '"ab1-_./:"'
-            pre = f"len(s) == {n} and " + " and ".join(pins + ['s[0] in "ab"'] + [f"s[{vs + i}] in {valpha}" for i in range(vl)])
+            pre = f"len(s) == {n} and " + " and ".join(pins + ['s[0] in "abA"'] + [f"s[{vs + i}] in {valpha}" for i in range(vl)])
             for where, extra, call in (("table", "", f"table_attr_step(s, {kl}, {vs}, {vl})"), ("row", ", header: bool", f"row_attr_step(s, {kl}, {vs}, {vl}, header)"), ("cell", ", header: bool", f"cell_attr_step(s, {kl}, {vs}, {vl}, header)")):
                 hdr = ", header" if extra else ""
                 out.append(f"""
@@ -301,7 +301,7 @@ def run(rep: C.Report) -> None:
                 "^sepin_": dict(name="Ob8 cell separators (!!, mid-line !, ||) inside an open HTML element / link / template / external link in a cell are text", functions=["parser.py:table_hdr_cell_fn", "parser.py:double_vbar_fn"], bounds="4 construct kinds x data/header cell x 3 tokens x one symbolic preceding character"),
                 "^nest_": dict(name="Ob7 beginning-of-line syntax stays disabled while any argument list is being re-parsed (nesting of the disable manager)", functions=["core.py:BegLineDisableManager"], bounds="all well-nested enter/exit sequences of length 6"),
                 "^vargs_": dict(name="Ob6 `|` inside a link / template / parameter reference / parser function closes the current argument (arguments accumulate in written order)", functions=["parser.py:vbar_fn"], bounds="4 node kinds x 0..2 earlier arguments x current argument text of 1..2 symbolic chars"),
-                "^place_": dict(name="Ob5 attributes written on a table, a row or a cell become that node's attribute map", functions=["parser.py:table_check_attrs", "parser.py:table_row_check_attrs", "parser.py:table_cell_fn (attribute separator)", "parser.py:check_for_attributes"], bounds="one attribute, name 1 char, value 1..2 (thorough 3) symbolic URL-safe chars, three quoting styles; data and header cells"),
+                "^place_": dict(name="Ob5 attributes written on a table, a row or a cell become that node's attribute map", functions=["parser.py:table_check_attrs", "parser.py:table_row_check_attrs", "parser.py:table_cell_fn (attribute separator)", "parser.py:check_for_attributes"], bounds="one attribute, name 1 char (lower or upper case), value 1..2 (thorough 3) symbolic URL-safe chars, three quoting styles; data and header cells"),
                 "^attr_": dict(name="Ob1 parse_attrs returns exactly the written attribute map", functions=["parser.py:parse_attrs"], bounds=f"name 1..2 chars over [ab-], value 0..{2 if quick else 3} chars over URL-safe characters, double-quoted / single-quoted / bare; two attributes with symbolic separator"),
             },
             timeout=90 if quick else 400,
